@@ -161,11 +161,12 @@ solveNormalizedCubic (T r, T s, T t, T x[3])
             return sign * std::pow (sign * a, T (1) / x);
         };
 
+        // Of the two Cardano cube roots take the one whose argument is formed
+        // without cancellation (-q/2 and the square root have the same sign);
+        // it is never zero here because D > 0.  The other follows from u v = -p/3.
         T sqrtD = std::sqrt (D);
-        T u     = real_root (-q / 2 + sqrtD, 3);
-        // u is zero exactly when p == 0 and q > 0 (x^3 + q = 0); the other
-        // cube root then carries the solution, and -p / (3 u) would be 0 / 0.
-        T v = (u != T (0)) ? -p / (T (3) * u) : real_root (-q / 2 - sqrtD, 3);
+        T u     = real_root ((q > 0) ? -q / 2 - sqrtD : -q / 2 + sqrtD, 3);
+        T v     = -p / (T (3) * u);
 
         x[0] = u + v - r / 3;
         return 1;
